@@ -128,6 +128,13 @@ def check(run):
             comp = [None, 'zlib', 'blsc'][k % 3]
             fns, arrs = make_files(rng, d, nfiles, spec, comp, f'c{k}')
             names = list(spec)
+            if k % 6 == 3 and nfiles >= 1:
+                # the same file may be named more than once: it is concatenated each time, in argument order
+                j = int(rng.integers(0, nfiles))
+                fns, arrs = fns + [fns[j]], arrs + [arrs[j]]
+                if k % 12 == 3:
+                    fns, arrs = [fns[j]] + fns, [arrs[j]] + arrs
+                nfiles = len(fns)
             m = int(rng.integers(1, nf + 1))
             fields = [names[int(i)] for i in rng.permutation(nf)[:m]]
             if k % 7 == 0:
